@@ -262,6 +262,13 @@ template <size_t K> struct Run1 {
         V("laddmul.a") { laddmul(p, x, y, z); o << to_hex(p.Low) << " " << to_hex(p.High); }
         V("laddmul2.rhl") { ruint<K+1> d; ruint<K> r, r2; garbage(r); garbage(r2); from_mpz(d, *a[2]); laddmul(c, r2, r, x, y, d); o << to_hex(r) << " " << to_hex(r2) << " " << c; }
         V("laddmul2.ra") { ruint<K+1> d; from_mpz(d, *a[2]); laddmul(c, p, x, y, d); o << to_hex(p.Low) << " " << to_hex(p.High) << " " << c; }
+        // the alias pattern of mul(al, c): low output = first operand (and = second operand for a *= a), high output = its sibling
+        V("lmul.inplace") { p.Low = x; lmul(p.High, p.Low, p.Low, y); o << to_hex(p.Low) << " " << to_hex(p.High); }
+        V("lmul.inplace2") { p.Low = y; lmul(p.High, p.Low, x, p.Low); o << to_hex(p.Low) << " " << to_hex(p.High); }
+        V("lmul_kara.inplace") { p.Low = x; lmul_kara(p.High, p.Low, p.Low, y); o << to_hex(p.Low) << " " << to_hex(p.High); }
+        V("lmul_kara.inplace2") { p.Low = y; lmul_kara(p.High, p.Low, x, p.Low); o << to_hex(p.Low) << " " << to_hex(p.High); }
+        V("lmul_naive.inplace") { p.Low = x; lmul_naive(p.High, p.Low, p.Low, y); o << to_hex(p.Low) << " " << to_hex(p.High); }
+        V("lmul_kara.inplacesq") { p.Low = x; lmul_kara(p.High, p.Low, p.Low, p.Low); o << to_hex(p.Low) << " " << to_hex(p.High); }
         V("lmul_w.a") { lmul(p, x, word(a, 1)); o << to_hex(p.Low) << " " << to_hex(p.High); }
         V("lsquare.a") { lsquare(p, x); o << to_hex(p.Low) << " " << to_hex(p.High); }
         V("shl_ext.abd") { left_shift(p, x, word(a, 1)); o << to_hex(p); }
